@@ -516,4 +516,45 @@ class TableOrders(object):
         return observe(mods, truth, dict((n, 'ot') for n in truth['ALPHA-MIB']), sig)
 
 
-FAMILIES = [Shapes(), Spellings(), Kinds(), SameNames(), ArcZero(), TableOrders()]
+ARC_VALUES = [0, 1, 127, 128, 16383, 16384, 2 ** 31 - 1, 2 ** 31, 2 ** 32 - 2, 2 ** 32 - 1]
+
+
+class ArcValues(object):
+    name = 'G-arc-values'
+    describe = ('boundary values of a sub-identifier (0, 1, 127/128, 16383/16384, 2^31-1, 2^31, 2^32-2, 2^32-1 - the largest RFC 2578 '
+                'allows) as the last arc { parent v }, as a named intermediate arc { parent mid(v) 5 } and as a bare intermediate '
+                'arc { parent v 5 }, for every OID-bearing kind')
+
+    def blocks(self, tier):
+        return [{'kind': k} for k in KINDS]
+
+    def cases(self, block, tier):
+        for v in ARC_VALUES:
+            for form in (0, 1, 2):
+                yield {'kind': block['kind'], 'v': v, 'form': form}
+
+    def run_case(self, case):
+        v, kind = case['v'], case['kind']
+        root = ENTERPRISES + (4242,)
+        decls = [make_decl('ot', 'helperObj', ['enterprises', 9000, 1]), make_decl('nt', 'helperNotif', ['enterprises', 9000, 2]),
+                 make_decl('og', 'helperGroup', ['enterprises', 9000, 3]),
+                 {'k': 'value', 'name': 'rootNode', 'oid': ['enterprises', 4242]}]
+        if case['form'] == 0:
+            oid, full = ['rootNode', v], root + (v,)
+        elif case['form'] == 1:
+            oid, full = ['rootNode', ['mid', v], 5], root + (v, 5)
+        else:
+            oid, full = ['rootNode', v, 5], root + (v, 5)
+        decls.append(make_decl(kind, 'subject', oid))
+        imports = {'SNMPv2-SMI': ['enterprises', 'OBJECT-TYPE', 'Integer32', 'NOTIFICATION-TYPE', 'OBJECT-IDENTITY',
+                                  'MODULE-IDENTITY', 'TRAP-TYPE'],
+                   'SNMPv2-CONF': ['OBJECT-GROUP', 'NOTIFICATION-GROUP', 'MODULE-COMPLIANCE', 'AGENT-CAPABILITIES']}
+        mods = [{'name': 'ALPHA-MIB', 'imports': sorted(imports.items()), 'decls': decls}]
+        if kind == 'trap':
+            full = full[:-1] + (0, full[-1])
+        truth = {'ALPHA-MIB': {'rootNode': root, 'subject': full}}
+        where = ('last', 'named-intermediate', 'intermediate')[case['form']]
+        return observe(mods, truth, {'rootNode': 'value', 'subject': kind}, 'C01|G|arc=%d|%s|%s' % (v, where, kind))
+
+
+FAMILIES = [Shapes(), Spellings(), Kinds(), SameNames(), ArcZero(), TableOrders(), ArcValues()]
